@@ -125,7 +125,7 @@ def project_files():
 
 def build(verbose=False, jobs=None):
     """Regenerate, build Coq (full .vo), extract, build the OCaml driver. Serialised by a lock."""
-    jobs = jobs or min(16, os.cpu_count() or 4)
+    jobs = jobs or int(os.environ.get('VERIF_JOBS', min(16, os.cpu_count() or 4)))
     st = BuildState()
     lock = open(os.path.join(VERIF, '.build.lock'), 'w')
     fcntl.flock(lock, fcntl.LOCK_EX)
@@ -213,7 +213,7 @@ def check_property_file(prop_id):
     for blk in re.split(r'\n(?=Closed under|Axioms:)', out):
         if blk.startswith('Axioms:'):
             for l in blk.split('\n')[1:]:
-                m = re.match(r'^([A-Za-z_][\w\.\']*)\s*:', l)
+                m = re.match(r'^([A-Za-z_][\w\.\']*)\s*(:|$)', l)
                 if m:
                     axioms.add(m.group(1))
     res['assumptions'] = sorted(axioms)
